@@ -118,4 +118,150 @@ theorem p4_suppressed (sk mk rk : String) (a : AddArgs) (s : Redis) (hm : List (
       callFn, argToString, exec_hmget3, hk, hv, hve, hs, optBulk, respToLua, respsToLua, mkTable, hx, hy, Lua.le,
       hle, hb, hoff]
 
+/-! ### the store path: what a stored publication is answered with -/
+
+/-- whenever `m` finishes without a Lua error, its value is `v` -/
+def OkRet (m : RedisM LVal) (v : LVal) : Prop := ∀ s r s', run m s = (.ok r, s') → r = v
+
+theorem okret_bind {α : Type} {m : RedisM α} {f : α → RedisM LVal} {v : LVal}
+    (h : ∀ x, OkRet (f x) v) : OkRet (m >>= f) v := by
+  intro s r s' hr
+  rw [run_bind] at hr
+  rcases hm : run m s with ⟨(e | x), s1⟩
+  · simp [hm] at hr
+  · simp [hm] at hr; exact h x s1 r s' hr
+
+theorem okret_ite {c : Prop} [Decidable c] {a b : RedisM LVal} {v : LVal}
+    (ha : OkRet a v) (hb : OkRet b v) : OkRet (if c then a else b) v := by
+  split <;> assumption
+
+theorem okret_pure (v : LVal) : OkRet (pure v) v := by
+  intro s r s' h; simp at h; exact h.1.symm
+
+/-- the reply of a stored publication -/
+def storedReply (top ep : LVal) : LVal := .tbl [top, ep, .str "0", .str "0"]
+
+abbrev Q (p : LVal → LVal → LVal → LVal → LVal → LVal → LVal → LVal → LVal → LVal → LVal → LVal → LVal → LVal →
+    LVal → LVal → LVal → LVal → LVal → RedisM LVal) (sk mk rk : String) (a : AddArgs) (ep top prev : LVal) : RedisM LVal :=
+  p (keysT sk mk rk) a.argv (.str sk) (.str mk) (.str rk) (.str a.payload) (.str a.size)
+    (.str a.ttl) (.str a.chan) (.str a.metaExp) (.str a.fresh) (.str a.pcmd) (.str a.rexp) (.str a.delta)
+    (.str a.ver) (.str a.vep) ep top prev
+
+theorem p13_ok (sk mk rk : String) (a : AddArgs) (ep : String) (n : Int) (prev : LVal) :
+    OkRet (Q broker_history_add_stream_p13 sk mk rk a (.str ep) (.num n) prev) (storedReply (.num n) (.str ep)) := by
+  intro s r s' h
+  simp [Q, broker_history_add_stream_p13, run_bind, mkTable] at h
+  exact h.1.symm
+
+theorem p12_ok (sk mk rk : String) (a : AddArgs) (ep : String) (n : Int) (prev : LVal) :
+    OkRet (Q broker_history_add_stream_p12 sk mk rk a (.str ep) (.num n) prev) (storedReply (.num n) (.str ep)) := by
+  unfold Q broker_history_add_stream_p12
+  dsimp only
+  apply okret_ite
+  · apply okret_bind; intro _; apply okret_bind; intro _; exact p13_ok sk mk rk a ep n prev
+  · exact p13_ok sk mk rk a ep n prev
+
+macro "okret_auto " t:term : tactic =>
+  `(tactic| ((try dsimp only); repeat (first | exact $t | apply okret_ite | (apply okret_bind; intro _; try dsimp only))))
+
+theorem p11_ok (sk mk rk : String) (a : AddArgs) (ep : String) (n : Int) (prev : LVal) :
+    OkRet (Q broker_history_add_stream_p11 sk mk rk a (.str ep) (.num n) prev) (storedReply (.num n) (.str ep)) := by
+  unfold Q broker_history_add_stream_p11
+  okret_auto (p12_ok sk mk rk a ep n prev)
+
+theorem p10_ok (sk mk rk : String) (a : AddArgs) (ep : String) (n : Int) (prev : LVal) :
+    OkRet (Q broker_history_add_stream_p10 sk mk rk a (.str ep) (.num n) prev) (storedReply (.num n) (.str ep)) := by
+  unfold Q broker_history_add_stream_p10
+  okret_auto (p11_ok sk mk rk a ep n prev)
+
+theorem p9_ok (sk mk rk : String) (a : AddArgs) (ep : String) (n : Int) (prev : LVal) :
+    OkRet (Q broker_history_add_stream_p9 sk mk rk a (.str ep) (.num n) prev) (storedReply (.num n) (.str ep)) := by
+  unfold Q broker_history_add_stream_p9
+  dsimp only
+  apply okret_ite
+  · apply okret_bind; intro _; exact p10_ok sk mk rk a ep n (.str "")
+  · exact p10_ok sk mk rk a ep n prev
+
+
+theorem p8_ok (sk mk rk : String) (a : AddArgs) (ep : String) (n : Int) (prev : LVal) :
+    OkRet (Q broker_history_add_stream_p8 sk mk rk a (.str ep) (.num n) prev) (storedReply (.num n) (.str ep)) := by
+  unfold Q broker_history_add_stream_p8
+  dsimp only
+  apply okret_bind; intro t2
+  apply okret_ite
+  · apply okret_bind; intro t4
+    apply okret_bind; intro t5
+    apply okret_bind; intro t6
+    apply okret_ite
+    · apply okret_bind; intro t7
+      apply okret_bind; intro t8
+      apply okret_bind; intro t9
+      apply okret_bind; intro t10
+      apply okret_bind; intro t11
+      apply okret_bind; intro t12
+      apply okret_bind; intro t13
+      apply okret_bind; intro prev'
+      exact p9_ok sk mk rk a ep n prev'
+    · exact p9_ok sk mk rk a ep n prev
+  · exact p9_ok sk mk rk a ep n prev
+
+/-- parts 6 and 7 (meta `EXPIRE`, initial previous payload) -/
+theorem p7_ok (sk mk rk : String) (a : AddArgs) (ep : String) (n : Int) :
+    OkRet (broker_history_add_stream_p7 (keysT sk mk rk) a.argv (.str sk) (.str mk) (.str rk) (.str a.payload)
+      (.str a.size) (.str a.ttl) (.str a.chan) (.str a.metaExp) (.str a.fresh) (.str a.pcmd) (.str a.rexp)
+      (.str a.delta) (.str a.ver) (.str a.vep) (.str ep) (.num n)) (storedReply (.num n) (.str ep)) := by
+  unfold broker_history_add_stream_p7
+  exact p8_ok sk mk rk a ep n (.str "")
+
+theorem p6_ok (sk mk rk : String) (a : AddArgs) (ep : String) (n : Int) :
+    OkRet (broker_history_add_stream_p6 (keysT sk mk rk) a.argv (.str sk) (.str mk) (.str rk) (.str a.payload)
+      (.str a.size) (.str a.ttl) (.str a.chan) (.str a.metaExp) (.str a.fresh) (.str a.pcmd) (.str a.rexp)
+      (.str a.delta) (.str a.ver) (.str a.vep) (.str ep) (.num n)) (storedReply (.num n) (.str ep)) := by
+  unfold broker_history_add_stream_p6
+  dsimp only
+  apply okret_ite
+  · apply okret_bind; intro _; exact p7_ok sk mk rk a ep n
+  · exact p7_ok sk mk rk a ep n
+
+theorem round53_of_lt (i : Int) (h : i.natAbs < 2 ^ 53) : round53 i = i := by
+  unfold round53
+  have hb : (if i.natAbs = 0 then 0 else i.natAbs.log2 + 1) ≤ 53 := by
+    split
+    · omega
+    · rename_i h0
+      have := (Nat.log2_lt h0).2 h
+      omega
+  simp only [hb, ↓reduceIte]
+
+/-- `tonumber`-free reading of the meta hash's `s` field as HINCRBY sees it -/
+def curOffset (hm : List (String × String)) : Option Int :=
+  match hlookup hm "s" with
+  | none => some 0
+  | some x => parseDecInt x
+
+/-- Part 5 (HINCRBY) and everything after it: a stored publication is answered with the old offset + 1 and
+the epoch the earlier parts determined — provided the script does not abort with a Lua/Redis error. -/
+theorem p5_ok (sk mk rk : String) (a : AddArgs) (s : Redis) (hm : List (String × String)) (ep : String) (c : Int)
+    (hk : HashAt s mk hm) (hc : curOffset hm = some c) (hsmall : (c + 1).natAbs < 2 ^ 53)
+    (r : LVal) (s' : Redis) (hrun : run (P5 sk mk rk a (.str ep)) s = (.ok r, s')) :
+    r = storedReply (.num (c + 1)) (.str ep) := by
+  unfold HashAt at hk
+  unfold curOffset at hc
+  have hr53 : round53 (c + 1) = c + 1 := round53_of_lt _ hsmall
+  unfold P5 broker_history_add_stream_p5 at hrun
+  rw [run_bind] at hrun
+  have h1 : numToArg 1 = "1" := by decide
+  have h2 : parseDecInt "1" = some 1 := by decide
+  have hov : ¬ (c + 1 > 9223372036854775807 ∨ c + 1 < -9223372036854775808) := by omega
+  cases hs : hlookup hm "s" with
+  | none =>
+    simp [hs] at hc
+    subst hc
+    simp [callFn, argToString, exec_hincrby, parseInt, h1, h2, hk, hs, respToLua] at hrun
+    exact p6_ok sk mk rk a ep 1 _ _ _ hrun
+  | some x =>
+    simp [hs] at hc
+    simp [callFn, argToString, exec_hincrby, parseInt, h1, h2, hk, hs, hc, hov, respToLua, hr53] at hrun
+    exact p6_ok sk mk rk a ep (c + 1) _ _ _ hrun
+
 end CentrifugeVerif.AddStream
